@@ -415,6 +415,60 @@ utf8:    {}", enc, t.root_node().to_sexp(), refx.sexp(&info.language));
             for i in 0..x16.nodes.len() { println!("  {}", x16.brief(i)); }
             if x16.nodes.len() != refx.nodes.len() { vec!["node count differs".into()] } else { vec![] }
         }
-        other => vec![format!("replay of part '{}' is not implemented; rerun the check", other)],
+        "partition" => {
+            let sp = x["splits"][0].as_u64().unwrap_or(0) as usize;
+            let len = d.len();
+            let t = p.parse_with_options(&mut |i, _| if i < len { if i < sp { &d[i..sp] } else { &d[i..] } } else { &d[len..] }, None, None).unwrap();
+            println!("partition at {}: {}\nwhole:          {}", sp, t.root_node().to_sexp(), refx.sexp(&info.language));
+            same(&XTree::build(&t), &refx).into_iter().map(|m| format!("partition-chunk-splits-character: {}", m)).collect()
+        }
+        "history" => {
+            // "[RangesSetCleared, LoggerOn, CancelReset]"
+            let hs: Vec<HOp> = x["history"].as_str().unwrap_or("").trim_matches(|c| c == '[' || c == ']').split(',').filter_map(|t| match t.trim() { "ParseOther" => Some(HOp::ParseOther), "OtherLanguage" => Some(HOp::OtherLanguage), "RangesSetCleared" => Some(HOp::RangesSetCleared), "CancelReset" => Some(HOp::CancelReset), "LoggerOn" => Some(HOp::LoggerOn), "LoggerOff" => Some(HOp::LoggerOff), _ => None }).collect();
+            let arith = build_info(&crate::zoo::arith());
+            let other_doc = z.seeds.iter().filter(|s| s.len() > 3).next().map(|s| s.as_bytes().to_vec()).unwrap_or_default();
+            let big = big_docs(z.name);
+            for &op in &hs { apply_hop(&mut p, op, &info, &arith, &other_doc, &big[0]); }
+            let t = p.parse(&d, None).unwrap();
+            println!("after {:?}: {}\nfresh parser:   {}", hs, t.root_node().to_sexp(), refx.sexp(&info.language));
+            same(&XTree::build(&t), &refx).into_iter().map(|m| format!("parser-history-changes-tree: {}", m)).collect()
+        }
+        "cancel-reset" => {
+            let at = x["cancel_at"][0].as_u64().unwrap_or(1);
+            let other_doc = z.seeds.iter().filter(|s| s.len() > 3).next().map(|s| s.as_bytes().to_vec()).unwrap_or_default();
+            let other_ref = reference(&info, &other_doc);
+            let mut calls = 0u64;
+            let mut cb = |_: &tree_sitter::ParseState| { calls += 1; if calls == at { ControlFlow::Break(()) } else { ControlFlow::Continue(()) } };
+            let opts = ParseOptions::new().progress_callback(&mut cb);
+            let len = d.len();
+            let r = p.parse_with_options(&mut |i, _| if i < len { &d[i..] } else { &d[len..] }, None, Some(opts));
+            let mut msgs = vec![];
+            if r.is_none() {
+                p.reset();
+                let t2 = p.parse(&other_doc, None).unwrap();
+                if let Some(m) = same(&XTree::build(&t2), &other_ref) { msgs.push(format!("reset-after-cancel-not-clean: other document: {}", m)); }
+                let t3 = p.parse(&d, None).unwrap();
+                if let Some(m) = same(&XTree::build(&t3), &refx) { msgs.push(format!("reset-after-cancel-not-clean: same document: {}", m)); }
+            } else { println!("the parse finished before callback {}", at); }
+            msgs
+        }
+        "cancel-incremental" => {
+            let e = Edit::from_json(&x["edit"]);
+            let at: Vec<u64> = x["cancel_at"].as_array().map(|a| a.iter().filter_map(|v| v.as_u64()).collect()).unwrap_or_default();
+            let base = p.parse(&d, None).unwrap();
+            let (nt, ie) = text::apply(&d, &e);
+            let mut old = base.clone();
+            old.edit(&ie);
+            let mut pu = Parser::new();
+            pu.set_language(&info.language).unwrap();
+            let (tu, k2, _) = parse_cancelling(&mut pu, &nt, Some(&old), &[]);
+            let unc = XTree::build(&tu.unwrap());
+            let mut pc = Parser::new();
+            pc.set_language(&info.language).unwrap();
+            let (t, _, cancels) = parse_cancelling(&mut pc, &nt, Some(&old), &at);
+            println!("uncancelled re-parse used {} callbacks; cancelled at {:?} ({} cancellations)", k2, at, cancels);
+            match t { None => vec!["resume-never-finishes".into()], Some(t) => same(&XTree::build(&t), &unc).into_iter().map(|m| format!("cancel-resume-changes-incremental-tree: {}", m)).collect() }
+        }
+        other => vec![format!("unknown part '{}'", other)],
     }
 }
